@@ -13,7 +13,7 @@ from . import PropBase, steps_with_ids
 
 KINDS = ["int", "float", "dec", "frac", "uuid", "ppath", "purepath", "path", "date", "dt", "time", "td", "enum"]
 TEMPORAL = ("date", "dt", "time", "td")
-FAULTS = ("twin", "shrink", "clear", "zone", "clock")
+FAULTS = ("twin", "shrink", "clear", "zone", "clock", "cross_target")
 EPOCH_MIN, EPOCH_MAX = -62135596800, 253402300799
 
 
@@ -69,6 +69,12 @@ class C04(PropBase):
                 tw = self._twin(rng, step)
                 if tw is not None:
                     steps.append(tw)
+            if "cross_target" in sw and step["op"] == "s_parse" and step["k"] in TEMPORAL and rng.random() < 0.6:
+                # F5-like: the very same text is first offered to *another* temporal target (a union
+                # trying its members in order does exactly this); whatever that call does, the real
+                # parse that follows must still succeed
+                other = rng.choice([x for x in TEMPORAL if x != step["k"]])
+                steps.append(dict(copy.deepcopy(step), op="s_cross", other=other, mid=[]))
             steps.append(step)
         return {"prop": self.ID, "seed": seed, "tier": tier, "world": world, "env": env, "steps": steps_with_ids(steps),
                 "meta": {"swarm": sw, "focus": focus}}
@@ -176,6 +182,21 @@ class C04(PropBase):
             out = sess.guarded(sess.call, step, typelib.unmarshal, T, x)
             sess._c04 = ("parse", v, text)
             return out
+        if op == "s_cross":
+            v = sess.V(step["v"])
+            T = self._T(sess, step)
+            if step["k"] == "td":
+                m = sess.guarded(sess.call, step, typelib.marshal, v, t=T)
+                text = m.value if m.ok else "PT1S"
+            else:
+                text = _text(v)
+            car = step.get("carrier", "str")
+            x = sess.V(hist.carry(text, car)) if isinstance(text, str) else text
+            sess.faults["cross_target"] += 1
+            sess.fault_fired_before = True
+            sess._c04 = ("cross", v, text)
+            out = sess.guarded(sess.call, step, typelib.unmarshal, self._T(sess, step, step["other"]), x)
+            return Outcome(True, "accepted" if out.ok else "rejected")
         if op == "s_emit":
             v = sess.V(step["v"])
             out = sess.guarded(sess.call, step, typelib.marshal, v, t=self._T(sess, step))
@@ -206,6 +227,8 @@ class C04(PropBase):
         if not op.startswith("s_"):
             return
         what, v, aux = sess._c04
+        if what == "cross":
+            return
         k = step["k"]
         base = f"{op}:{k}"
         if what == "emit-failed":
